@@ -69,6 +69,10 @@ LEvalStep ==
            rec == [rule |-> LRuleOf(j.rule), layers |-> LMap(j.layers), out |-> j.out, obs |-> LObsOf(j)] IN
        /\ \A f \in LEvalFails(j, a.modules, a.imports) : Report(f[1], f[2], j.rid)
        /\ IF j.same THEN TRUE ELSE Report("C15", "architecture-changed-by-evaluation", j.rid)
+       \* session replays (Session.tla) also evaluate the configuration in isolation - fresh architecture, fresh
+       \* rule object - and log whether verdict and message were the same
+       /\ IF "fresh_same" \in DOMAIN j /\ ~j.fresh_same
+          THEN Report("C15", "outcome-depends-on-history-or-object-reuse", j.rid) ELSE TRUE
        \* building and evaluating a rule never alters the LayeredArchitecture it is based on (the object is shared
        \* by every rule of the episode, so an alteration would also show up in the outcomes of later rules)
        /\ IF j.def_same THEN TRUE ELSE Report("C05,C15,C16", "layer-definition-changed-by-rule", j.rid)
